@@ -67,6 +67,7 @@ pub fn run(_tier: &str) -> Report {
     let mut f_event_stripped = vec![];
     let mut f_event_kept = vec![];
     let mut f_atomic = vec![];
+    let mut f_atomic_ev = vec![];
 
     let a1 = keypair("1");
     let a2 = keypair("2");
@@ -407,6 +408,30 @@ pub fn run(_tier: &str) -> Report {
             }
         }
     }
+    // ---------------- a signing call that reports an error leaves the object as it was: hash_and_sign_event
+    for v in &versions {
+        let rules = v.rules().unwrap();
+        for (name, ev) in events() {
+            let mut bads: Vec<(&str, CanonicalJsonObject)> = vec![];
+            for (what, key, val) in [("signatures is a string", "signatures", json!("str")), ("signatures of the entity is a string", "signatures", json!({"a.org": "not-an-object"})),
+                ("hashes is a string", "hashes", json!("str")), ("content is a string", "content", json!("str")), ("type is a number", "type", json!(1))] {
+                let mut e = obj(ev.clone());
+                e.insert(key.to_owned(), serde_json::from_value(val).unwrap());
+                bads.push((what, e));
+            }
+            let mut e = obj(ev.clone());
+            e.remove("type");
+            bads.push(("type is missing", e));
+            for (what, mut e) in bads {
+                cases += 1;
+                let before = e.clone();
+                if hash_and_sign_event("a.org", &a1, &mut e, &rules.redaction).is_err() && e != before {
+                    fail(&mut f_atomic_ev, json!({"room_version": v.as_str(), "event": name, "malformed": what, "why": "hash_and_sign_event returned an error but changed the object",
+                        "before": serde_json::to_value(&before).unwrap(), "after": serde_json::to_value(&e).unwrap()}));
+                }
+            }
+        }
+    }
     let _ = BTreeMap::<u8, u8>::new();
     Report {
         bound: "7 event shapes (incl. non-join events carrying join_authorised_via_users_server) x room versions 1-11 x every top-level and content key replaced or removed after signing (plus one added field, unsigned) x 2 entities; sign_json with 8 key-version spellings incl. non-alphanumeric; required signers: 8 (event, signer set) rows x room versions 1-11; fresh random Ed25519 keys".to_owned(),
@@ -417,6 +442,7 @@ pub fn run(_tier: &str) -> Report {
             ("unsigned_is_irrelevant_and_untouched", cases, f_unsigned),
             ("verify_json_checks_every_named_entity", cases, f_all_entities),
             ("sign_json_error_leaves_object_unchanged", cases, f_atomic),
+            ("hash_and_sign_event_error_leaves_object_unchanged", cases, f_atomic_ev),
             ("event_hash_and_sign_then_verify_is_all", cases, f_event_all),
             ("event_redacted_copy_keeps_valid_signatures", cases, f_event_redacted),
             ("event_stripped_field_change_gives_signatures_only", cases, f_event_stripped),
